@@ -1,7 +1,7 @@
 (** C21 — correspondence cases: an event history with the observations the Go
     mempool returned after every event. *)
 From Coq Require Import List ZArith NArith Bool String.
-From C33 Require Import Lib.Harness C21.Model C21.Spec.
+From C33 Require Import Lib.Harness C21.Model C21.Spec C21.DelayModel C21.DelaySpec.
 Import ListNotations.
 Open Scope Z_scope.
 
@@ -9,8 +9,12 @@ Inductive case :=
 | CHist (c : config) (shtab : list (N * N)) (senders hashes : list N) (txs : list tx)
         (steps : list (event * obs))
     (* sequential history *)
-| CFinal (c : config) (shtab : list (N * N)) (senders hashes : list N) (txs : list tx) (o : obs).
+| CFinal (c : config) (shtab : list (N * N)) (senders hashes : list N) (txs : list tx) (o : obs)
     (* final observation of a concurrent run: only the oracle applies (a test) *)
+| CDHist (c : config) (dsize : Z) (hdr0 : Z * Z) (shtab : list (N * N)) (senders hashes : list N)
+         (txs : list tx) (steps : list (devent * obs * dobs)).
+    (* sequential history of the pool together with the delayed-transaction cache
+       ([dsize] = its capacity; the header is (height, block time) [hdr0] at the start) *)
 
 (** the short hash of each transaction hash of the case, as computed by
     types.CalcTxShortHash on the Go side; unknown hashes get distinct values *)
@@ -144,6 +148,64 @@ Definition XFinal (c : config) (tab : string) (txs : list tx) (o : obs) : option
   let hashes := map N.of_nat (seq 1 (List.length (hx tab))) in
   Some (CFinal c (combine hashes (hx tab)) [0; 1; 2]%N hashes txs o).
 
+(** * pool + delayed-transaction cache (C21.DelayModel / C21.DelaySpec) *)
+Definition dobs_eqb (a b : dobs) : bool :=
+  N.eqb (do_err a) (do_err b) && list_n_eqb (do_rel a) (do_rel b)
+  && list_oz_eqb (do_tab a) (do_tab b) && (do_len a =? do_len b).
+
+Definition is_delay_add (e : devent) : bool := match e with DAddDelay _ _ => true | _ => false end.
+
+(** no short-hash collision is generated in these histories: every failure of
+    the pool oracle or of the delay oracle is a violation *)
+Fixpoint check_dsteps (sh : N -> N) (c : config) (dsize : Z) (txs : list tx) (senders hashes : list N)
+         (s : state * dcache) (p : pend) (steps : list (devent * obs * dobs)) : verdict :=
+  match steps with
+  | [] => ok_verdict
+  | (e, o, dob) :: tl =>
+      let last := hdr_time (fst s) in
+      match dstep sh c s e, sp_step dsize last p e with
+      | (s', err, rel), (p', serr, srel) =>
+          let perr := if is_delay_add e then E_OK else err in
+          let derr := if is_delay_add e then err else D_OK in
+          let mo := obs_eqb (observe sh senders hashes perr (fst s')) o
+                    && dobs_eqb (dobserve hashes derr rel (snd s')) dob in
+          let pe := match e with DEv ev _ => Some ev | _ => None end in
+          let bounds := match e with DEv (EAddBlock _ h b _) _ => Some (last, b, h) | _ => None end in
+          let sp := match spec_all sh c txs senders hashes pe o with (sb, ss) => sb && ss end
+                    && dspec_obs hashes p' serr srel bounds dob in
+          match check_dsteps sh c dsize txs senders hashes s' p' tl with
+          | (m, sv, k) => (mo && m, sp && sv, 0%N)
+          end
+      end
+  end.
+
+Inductive xdevent :=
+| XD (x : xevent) (cms : list commit)
+| XDAdd (tx : option N) (endt : Z).
+
+Definition dob (err : N) (rel : string) (tab : list (option Z)) (len : Z) : dobs := mkDobs err (hx rel) tab len.
+
+Fixpoint decode_dsteps (txs : list tx) (l : list (xdevent * obs * dobs)) : option (list (devent * obs * dobs)) :=
+  match l with
+  | [] => Some []
+  | (x, o, d) :: tl =>
+      match (match x with
+             | XD xe cms => option_map (fun e => DEv e cms) (decode_event txs xe)
+             | XDAdd tx endt => Some (DAddDelay tx endt)
+             end), decode_dsteps txs tl with
+      | Some e, Some r => Some ((e, o, d) :: r)
+      | _, _ => None
+      end
+  end.
+
+Definition XDHist (c : config) (dsize : Z) (hdr0 : Z * Z) (tab : string) (txs : list tx)
+           (steps : list (xdevent * obs * dobs)) : option case :=
+  let hashes := map N.of_nat (seq 1 (List.length (hx tab))) in
+  match decode_dsteps txs steps with
+  | Some st => Some (CDHist c dsize hdr0 (combine hashes (hx tab)) [0; 1; 2]%N hashes txs st)
+  | None => None
+  end.
+
 Definition check_case' (cs : case) : verdict :=
   match cs with
   | CHist c tab senders hashes txs steps =>
@@ -153,6 +215,9 @@ Definition check_case' (cs : case) : verdict :=
       match spec_all (sh_of tab) c txs senders hashes None o with
       | (sb, ss) => (true, sb && ss, 0%N)
       end
+  | CDHist c dsize hdr0 tab senders hashes txs steps =>
+      check_dsteps (sh_of tab) c dsize txs senders hashes
+                   (set_hdr (fst hdr0) (snd hdr0) init, dnew dsize) [] steps
   end.
 
 (** a case that does not decode is a broken harness, never a pass *)
